@@ -25,6 +25,11 @@ CONSTANTS
   GlClasses <- GOk
   FeeClasses <- FOne
   AlClasses <- ALSome
+  FrameKinds <- FKOld
+  CallTargets <- AnyAcct
+  TxTargets <- AnyAcct
+  Benefs <- AnyAcct
+  WpOps <- WPNone
   MaxDepth = 1
   MaxFrameOps = 1
   MaxTx = 2
